@@ -35,10 +35,12 @@ struct netbuf_read {
 	size_t buflen;			/* Length of buf. */
 	size_t bufpos;			/* Position of read pointer in buf. */
 	size_t datalen;			/* Position of write pointer in buf. */
+	size_t waitlen;			/* Length requested by _wait. */
 };
 
 static int callback_success(void *);
 static int callback_read(void *, ssize_t);
+static int doread(struct netbuf_read *);
 
 /**
  * netbuf_read_init(s):
@@ -176,19 +178,40 @@ netbuf_read_wait(struct netbuf_read * R, size_t len,
 	}
 
 	/* Read data into the buffer. */
+	R->waitlen = len;
+	if (doread(R))
+		goto err0;
+
+done:
+	/* Success! */
+	return (0);
+
+err0:
+	/* Failure! */
+	return (-1);
+}
+
+/*
+ * Launch a read into the spare space in the buffer.  We ask to be called
+ * back as soon as any data arrives, so that all the data which has been
+ * read from the socket is accounted for in R->datalen; this ensures that
+ * cancelling a wait never discards data.
+ */
+static int
+doread(struct netbuf_read * R)
+{
+
 	if (R->ssl) {
 		if ((R->read_cookie = (netbuf_read_ssl_func)(R->ssl,
 		    &R->buf[R->datalen], R->buflen - R->datalen,
-		    R->bufpos + len - R->datalen, callback_read, R)) == NULL)
+		    1, callback_read, R)) == NULL)
 			goto err0;
 	} else {
 		if ((R->read_cookie = network_read(R->s, &R->buf[R->datalen],
-		    R->buflen - R->datalen, R->bufpos + len - R->datalen,
-		    callback_read, R)) == NULL)
+		    R->buflen - R->datalen, 1, callback_read, R)) == NULL)
 			goto err0;
 	}
 
-done:
 	/* Success! */
 	return (0);
 
@@ -235,6 +258,13 @@ callback_read(void * cookie, ssize_t lenread)
 
 	/* We've got more data. */
 	R->datalen += (size_t)lenread;
+
+	/* If we don't have enough data yet, keep reading. */
+	if (R->datalen - R->bufpos < R->waitlen) {
+		if (doread(R))
+			goto failed;
+		return (0);
+	}
 
 	/* Perform callback. */
 	return ((R->callback)(R->cookie, 0));
